@@ -52,8 +52,11 @@ SyncOf(t, k, st) ==
                             !.pend = IF x.ret.release > 0 \/ t \notin DOMAIN x.r.tables THEN With(e.pend, t, x.ret.release) ELSE e.pend],
                   [NoCall EXCEPT !.op = "SyncState", !.id = t, !.out = k, !.err = x.ret.err, !.release = x.ret.release, !.handed = x.ret.players], st)
 Sync == \E t \in DOMAIN e.member : t \notin DOMAIN e.pend /\ \E k \in 0..MaxOut : k <= Cardinality(e.member[t]) /\ SyncOf(t, k, "")
-SyncUnknown == \E x \in OpSync(e.r, e.r.nextId + 1, 0) :
-        Emit(e, [NoCall EXCEPT !.op = "SyncState", !.id = e.r.nextId + 1, !.err = x.ret.err], "")
+\* a call naming a table the regulator does not know: an id never given out, or a table that was told to break (whether
+\* or not it has handed its players back yet) - with or without a number of eliminations; nothing happens at the tables
+Stray == {e.r.nextId + 1} \cup e.gone \cup {t \in DOMAIN e.pend : t \notin DOMAIN e.r.tables}
+SyncUnknown == \E t \in Stray : \E k \in 0..1 : \E x \in OpSync(e.r, t, k) :
+        Emit(e, [NoCall EXCEPT !.op = "SyncState", !.id = t, !.out = k, !.err = x.ret.err], "")
 ReleaseOf(t, st) ==
         LET ps == MinK(e.member[t], e.pend[t])
             broken == t \notin DOMAIN e.r.tables
